@@ -56,7 +56,7 @@ pred Kept(p *pp) = p.panicking == old(p.panicking) && p.erroring == old(p.errori
 pred Funnel(p *pp, k int, a []interface{}) = p.gdp == 1 && p.gdk == k && p.gdar == ref(a) && p.gdao == off(a) && p.gdal == len(a)
 -- what sync.Pool may hold
 pred PoolInv(p *pp) = len(p.buf.buf) == 0 && p.buf.validUntil == 0 && p.buf.mode == UnsafeEscaped && !p.buf.markerOpen && p.override == 0 && p.buf.gctx == 0 && isnil(p.arg) && isnil(p.wrappedErr)
-pred Pristine(p *pp) = PoolInv(p) && p.gdp == 0 && p.gnw == 0 && !p.gw0 && !p.panicking && !p.erroring && !p.wrapErrs && p.fmt.buf == p.buf && !p.fmt.widPresent && !p.fmt.precPresent && !p.fmt.minus && !p.fmt.plus && !p.fmt.sharp && !p.fmt.space && !p.fmt.zero && !p.fmt.plusV && !p.fmt.sharpV
+pred Pristine(p *pp) = PoolInv(p) && p.fmt.wid == 0 && p.fmt.prec == 0 && p.gdp == 0 && p.gnw == 0 && !p.gw0 && !p.panicking && !p.erroring && !p.wrapErrs && p.fmt.buf == p.buf && !p.fmt.widPresent && !p.fmt.precPresent && !p.fmt.minus && !p.fmt.plus && !p.fmt.sharp && !p.fmt.space && !p.fmt.zero && !p.fmt.plusV && !p.fmt.sharpV
 
 -- a write site: payload class c (0 literal, 1 type name/diagnostic, 2 operand, 3 padding: follows the payload it pads) against mode and context
 -- width and precision stay within what the format parser produces
